@@ -7,9 +7,9 @@ triggers), round 3 asks for a different kind of subtlety (secondary clauses, alt
 points, cumulative histories)."""
 import json, os, sys
 BENIGN_ROUND = 1
-if len(sys.argv) > 1 and sys.argv[1] in ("benign", "benign2", "benign3"):
+if len(sys.argv) > 1 and sys.argv[1] in ("benign", "benign2", "benign3", "benign4"):
     rnd = 0
-    BENIGN_ROUND = {"benign": 1, "benign2": 2, "benign3": 3}[sys.argv[1]]
+    BENIGN_ROUND = {"benign": 1, "benign2": 2, "benign3": 3, "benign4": 4}[sys.argv[1]]
 else:
     rnd = int(sys.argv[1]) if len(sys.argv) > 1 else 1
 R = "" if rnd == 1 else str(rnd)
@@ -136,6 +136,16 @@ Find benign changes of a DIFFERENT kind. Directions that are still open:
 - API-level refactors that keep signatures: by-value vs by-reference internals, moving logic between the typed and message-level layer.
 Stay strictly inside what the statement leaves open: if a reader could argue that the statement promises the behaviour you are changing, pick something else (or record the argument under "doubt").
 """
+BENIGN4_EXTRA = """
+## FOURTH ROUND (read carefully)
+Three rounds of benign refactorings have been collected (reordering, representation of equal results, error wording, fresh ids, optional fields, caching, numeric freedom, normalisation inside shared helpers, string-level freedom of writers and readers) and the oracle is silent on all of them. This round, deliver small genuine FEATURES rather than refactorings: a coherent, well-meant extension of 10-40 lines that a maintainer could really want and that leaves the property true by its literal statement for EVERY input inside its quantifier, while visibly changing behaviour somewhere the statement does not reach. Examples of the genre (pick what fits THIS code):
+- accept MORE: an input that used to be rejected and lies OUTSIDE the statement's quantifier and outside its rejection clauses (another spelling, keyword, case, separator, number format, an additional optional section or annotation key, a trailing comment, a byte-order mark, CRLF) is now handled sensibly;
+- report MORE: additional information attached to results where nothing is promised (names / descriptions / subscripts / parameters on generated variables or constraints, a removed-reason parameter, extra annotations, richer error messages or an error `source()`, `Display`/`Debug` output), leaving every promised field as it was;
+- a better failure: an input outside the quantifier that used to panic or hang now returns an error (or vice versa an over-strict rejection outside the statement is relaxed);
+- an OPTIONAL path that is off for every input the statement talks about (only triggered by a new annotation, an environment-independent flag field that defaults to the old behaviour, an otherwise unused enum value);
+- a faster algorithm with identical results on every quantified input (closed form instead of a loop, binary search on sorted data the SDK itself produced, skipping work that provably cannot change the result).
+Go clause by clause through the statement (including rejection clauses, "changes nothing" clauses, id / name / metadata clauses, exactness and minimality clauses) and make sure none is affected for any quantified input; when the statement lists what is rejected, do not start accepting any of it. If a reader could argue a clause is touched, pick something else or record the argument under "doubt".
+"""
 BENIGN3_EXTRA = """
 ## THIRD ROUND (read carefully)
 Two rounds of benign changes have been collected and the oracle is silent on all of them. Already covered (do NOT repeat): reordering terms / list entries; where a new variable is inserted; representation of an equal result (Linear vs Quadratic vs Polynomial message, scaled equations); error wording / variant / precondition order; extra metadata on generated objects; different fresh ids; absent optional field vs explicit default; caching, pre-sizing, BTreeMap vs HashMap.
@@ -150,8 +160,10 @@ Before settling on a change, re-read the statement and make sure that NO clause 
 for pid, p in props.items():
     if rnd == 0:
         text = json.dumps({k: p[k] for k in ['id', 'title', 'statement', 'quantifier', 'anchors']}, indent=1)
-        tag = {1: 'benign', 2: 'benign2', 3: 'benign3'}[BENIGN_ROUND]
+        tag = {1: 'benign', 2: 'benign2', 3: 'benign3', 4: 'benign4'}[BENIGN_ROUND]
         body = BENIGN.format(wt=f'/tmp/{tag}-{pid}', out=f'/tmp/{tag}-{pid}-out', demo=f'{tag}_demo_{pid.lower()}', text=text, pid=pid)
+        if BENIGN_ROUND == 4:
+            body = body.replace("## What to deliver: TWO independent benign changes (A and B)", BENIGN4_EXTRA + "\n## What to deliver: TWO independent benign changes (A and B)")
         if BENIGN_ROUND == 3:
             body = body.replace("## What to deliver: TWO independent benign changes (A and B)", BENIGN3_EXTRA + "\n## What to deliver: TWO independent benign changes (A and B)")
         if BENIGN_ROUND == 2:
